@@ -6,16 +6,19 @@
 (* handshake: that is C05's subject).                                                   *)
 EXTENDS Integers, Sequences, FiniteSets, TLC, Json
 CONSTANTS Clients, Ids, Depth
-VARIABLES open, hist
-Init == open = {} /\ hist = <<>>
+VARIABLES open, lapsed, hist
+Init == open = {} /\ lapsed = {} /\ hist = <<>>
 Rec(r) == hist' = Append(hist, r)
 Next == /\ Len(hist) < Depth
         /\ \/ \E c \in Clients, q \in 0..2, id \in Ids :
                 /\ <<c, id>> \notin open
                 /\ open' = IF q = 2 THEN open \cup {<<c, id>>} ELSE open
+                /\ lapsed' = lapsed \ {<<c, id>>}
                 /\ Rec([op |-> "pub", c |-> c, q |-> q, id |-> id])
-           \/ \E k \in open : open' = open \ {k} /\ Rec([op |-> "rel", c |-> k[1], q |-> 2, id |-> k[2]])
-           \/ /\ open # {} /\ open' = {} /\ Rec([op |-> "sweep", c |-> "", q |-> 0, id |-> 0])
-Spec == Init /\ [][Next]_<<open, hist>>
+           \/ \E k \in open : open' = open \ {k} /\ UNCHANGED lapsed /\ Rec([op |-> "rel", c |-> k[1], q |-> 2, id |-> k[2]])
+           \* a PUBREL that arrives after its handshake has timed out (the message was dropped: nothing may be acknowledged)
+           \/ \E k \in lapsed : lapsed' = lapsed \ {k} /\ UNCHANGED open /\ Rec([op |-> "rel", c |-> k[1], q |-> 2, id |-> k[2]])
+           \/ /\ open # {} /\ lapsed' = lapsed \cup open /\ open' = {} /\ Rec([op |-> "sweep", c |-> "", q |-> 0, id |-> 0])
+Spec == Init /\ [][Next]_<<open, lapsed, hist>>
 Dump == (Len(hist) = Depth) => PrintT(<<"BEHAV", ToJson(hist)>>)
 =============================================================================
